@@ -870,3 +870,18 @@ func sexpParse(s string) *sexp {
 	}
 	return parse()
 }
+
+// mentionsQuantified reports whether a term refers (directly) to a defined symbol whose body is quantified.
+func (u *Universe) mentionsQuantified(s string) bool {
+	if !strings.Contains(s, "!") {
+		return false
+	}
+	u.mu.Lock()
+	defer u.mu.Unlock()
+	for _, tok := range symbolsOf(s) {
+		if d, ok := u.syms[tok]; ok && d.body != "" && (strings.Contains(d.body, "(forall") || strings.Contains(d.body, "(exists")) {
+			return true
+		}
+	}
+	return false
+}
